@@ -162,7 +162,14 @@ def case(draw):
             'changed': really_changed, 'tags': lay['tags'],
             'weak': manifests[weak]['p'] if weak is not None else None,
             'warm': draw(st.sampled_from([False, True, 'update-mode',
-                                          'update-mode']))}
+                                          'update-mode'])),
+            # how the querying loader is configured (none of this may
+            # weaken the chain check)
+            'loader': draw(st.sampled_from(
+                [None, None, {'hashes': ['SHA1']},
+                 {'hashes': ['BLAKE2B', 'SHA512']}, {'hashes': ['MD5']},
+                 {'profile': 'ebuild'}, {'profile': 'old-ebuild'},
+                 {'sort': True, 'compress_watermark': 0}]))}
 
 
 def strat(tier):
@@ -233,8 +240,14 @@ def run_case(desc):
         fmt = R.compression_of(chain[k]) or 'plain'
         classes.append('broken-fmt:' + fmt)
         B = chain[k]
+        lk = dict(desc.get('loader') or {})
+        if 'profile' in lk:
+            from gemato.profile import get_profile_by_name
+            lk['profile'] = get_profile_by_name(lk['profile'])
+        if lk:
+            classes.append('loader:' + ','.join(sorted(desc['loader'])))
         for name, args in api_calls(desc):
-            m = gem.loader(root)
+            m = gem.loader(root, **lk)
             if desc['warm']:
                 # a loader that already served other lookups
                 # (it may itself run into the broken link)
